@@ -10,8 +10,9 @@ namespace Bp
 open Gen
 
 mutual
-/-- a raw slot value that is well-typed for its field (flat fields as in `flatSlotOk`;
-    message-typed fields: unset, None, a well-typed message, a list of such) -/
+/-- a raw slot value that is well-typed for its field: flat fields as in `flatSlotOk`;
+    message-typed fields: unset, None, a well-typed message, a list of such; Timestamp /
+    Duration, wrapper and map fields as commented below -/
 inductive SlotOk (S : Schema) : FieldD → Val → Prop
   | flat (f : FieldD) (v : Val) : FlatField f → flatSlotOk f v = true → SlotOk S f v
   | unsetSub (f : FieldD) (c : Nat) : SubField f c → f.optional = false → SlotOk S f Val.ph
@@ -20,6 +21,26 @@ inductive SlotOk (S : Schema) : FieldD → Val → Prop
       SubField f c → f.repeated = false → MsgOk S (.msg c sl ow unk cur) → SlotOk S f (.msg c sl ow unk cur)
   | subs (f : FieldD) (c : Nat) (xs : List Val) :
       SubField f c → f.repeated = true → MsgsOk S c xs → SlotOk S f (.list xs)
+  -- Timestamp / Duration fields (datetime / timedelta values in the protobuf-valid range)
+  | unsetTime (f : FieldD) (isDur : Bool) : TimeField f isDur → f.optional = false → SlotOk S f Val.ph
+  | noneTime (f : FieldD) (isDur : Bool) : TimeField f isDur → f.optional = true → SlotOk S f Val.none
+  | ts (f : FieldD) (us : Int) : TimeField f false → tsOk us = true → SlotOk S f (.ts us)
+  | dur (f : FieldD) (us : Int) : TimeField f true → durOk us = true → SlotOk S f (.dur us)
+  -- wrapper fields (`Optional[scalar]`): unset, None (not as a oneof member: a member set to None
+  -- selects it without emitting anything, and the selection is lost), or a well-typed scalar
+  | unsetWrap (f : FieldD) (w : PType) : WrapField f w → f.optional = false → SlotOk S f Val.ph
+  | noneWrap (f : FieldD) (w : PType) : WrapField f w → f.group = Option.none → SlotOk S f Val.none
+  | wrap (f : FieldD) (w : PType) (v : Val) : WrapField f w → scalarOk w v = true → SlotOk S f v
+  -- map fields: unset, or a dict with well-typed pairwise different keys and well-typed scalar values
+  -- / well-typed messages of the value class
+  | unsetMapS (f : FieldD) : MapFieldS f → SlotOk S f Val.ph
+  | unsetMapM (f : FieldD) (c : Nat) : MapFieldM f c → SlotOk S f Val.ph
+  | mapS (f : FieldD) (ks vs : List Val) : MapFieldS f → ks.length = vs.length →
+      (∀ x ∈ ks, scalarOk f.mapK x = true) → (∀ x ∈ vs, scalarOk f.mapV x = true) → KeysDistinct ks →
+      SlotOk S f (.dict ks vs)
+  | mapM (f : FieldD) (c : Nat) (ks vs : List Val) : MapFieldM f c → ks.length = vs.length →
+      (∀ x ∈ ks, scalarOk f.mapK x = true) → MsgsOk S c vs → KeysDistinct ks →
+      SlotOk S f (.dict ks vs)
 /-- a well-typed, reachable message instance -/
 inductive MsgOk (S : Schema) : Val → Prop
   | mk (c : Nat) (d : MsgD) (sl : List Val) (ow : Bool) (unk : Bytes) (cur : List (Option Nat)) :
